@@ -437,6 +437,9 @@ func (e *Engine) verifyFunction(fn *ssa.Function, fc *FuncContract) (res *FuncRe
 				}
 			}
 		}
+		for _, ga := range fc.GhostExit {
+			fv.ghostAssign(st, ga, env)
+		}
 		for _, en := range fc.Ensures {
 			if en.Free {
 				continue
